@@ -32,7 +32,22 @@ def run():
             lines.append('NEW %s -' % d)
             offs = {}
             for k in range(rng.randrange(4, 14 if Q else 40)):
-                ev = g.new_event(kind=1, content=b'c' * rng.choice([0, 10, 200, 700, 1500, 2100, 5000]))
+                # mostly plain notes of growing sizes; also versions of one replaceable address, deletion requests for
+                # earlier notes and explicit removals: the bytes of a displaced / deleted / removed event are still the
+                # bytes a held reference points at
+                mine = [e for e in offs.values() if e['pk'] == AUTHORS[0]]
+                what = rng.choice(['note'] * 5 + ['repl', 'repl', 'del', 'rem'])
+                if what == 'repl':
+                    ev = g.new_event(kind=10003, pk=AUTHORS[0], t=100 + k, tags=[], content=b'r' * rng.choice([1, 300]))
+                elif what == 'del' and mine:
+                    ev = g.new_event(kind=5, pk=AUTHORS[0], t=5000, tags=[[b'e', rng.choice(mine)['id'].hex().encode()]], content=b'')
+                elif what == 'rem' and mine:
+                    victim = rng.choice(mine)
+                    ab.remove(victim['id'])
+                    lines.append('REM ' + hx(victim['id']))
+                    ev = g.new_event(kind=1, pk=AUTHORS[0], content=b'c' * rng.choice([0, 10, 200]))
+                else:
+                    ev = g.new_event(kind=1, pk=rng.choice(AUTHORS[:2]), content=b'c' * rng.choice([0, 10, 200, 700, 1500, 2100, 5000]))
                 r = ab.store(ev)
                 li = len(lines)
                 lines.append('STO ' + ev_tok(ev))
